@@ -1688,7 +1688,9 @@ class FuncFind(ValueFunc):
                 env = environment.newEnv()
             item = args.get("part")
             lst = obj.value
-            for idx in range(len(lst)):
+            if start < 0:
+                start = max(0, len(lst) + start)
+            for idx in range(start, len(lst)):
                 elem = lst[idx]
                 if key:
                     elem = key.execute(
